@@ -15,7 +15,7 @@ func init() {
 		id: "C08",
 		li: levelInfo{
 			Level:       "other",
-			Explanation: "Static rules on the configuration store and the controller. R1: every concrete type sent on the event channel has a case in the controller's type switch and vice versa. R2: a deletion from the service table emits a remove event for the same entry; add-versus-delta is decided by the previous value never having been set (nil test of the value loaded before the mutation), and the stored state is updated before the emit. R3 (sibling cross-check): the store applies the removed list before the added list to its own endpoint slice, and the controller applies the two lists of one endpoint event in the same relative order. R4: only the designated functions write the processor table; the exists-already arm returns without creating, and a processor is registered only after it started. R5: a processor's configuration pointer is replaced only after every fallible step of the update succeeded. Convergence for every history is not decided; in particular an invalid configuration that is corrected later arrives as a config event for a missing processor and is ignored - that documented defect is not visible to these rules. R6: every event is sent by a plain blocking send, on the goroutine of the update handler, under the store's write lock (event order = state-change order). R7: the controller's handlers contain no go statement (events applied one at a time). R8: processor creation is gated on the configuration, so every event kind that carries a configuration attempts the creation when no processor exists. R2 also: once the add event is out the stored endpoint list is non-nil (the next update is a delta). R3 also: endpoints are compared by address only. R9: the shared configuration holder is written only at construction and nothing caches a configuration message. R10 (shared with C06.R12): every processor applies every endpoint event to its host set. The event channel is found by role (the struct field of type chan Event). R11: an event that may have to create the processor (it has an Endpoints field) has that field set on every path from its construction to its emission. R12: no nil is stored into a slot of the stored endpoint list while an event shares the slice. R13: the store looks a service up and applies the update under one write-lock acquisition. R3 reports lists passed through a function before being applied. R14: proc.New hands the service name on unchanged (the controller files a processor under the name it reports and looks it up by the service name of later events). R15: in the dependency hook the store is told about a change before the subscriptions for it are made.",
+			Explanation: "Static rules on the configuration store and the controller. R1: every concrete type sent on the event channel has a case in the controller's type switch and vice versa. R2: a deletion from the service table emits a remove event for the same entry; add-versus-delta is decided by the previous value never having been set (nil test of the value loaded before the mutation), and the stored state is updated before the emit. R3 (sibling cross-check): the store applies the removed list before the added list to its own endpoint slice, and the controller applies the two lists of one endpoint event in the same relative order. R4: only the designated functions write the processor table; the exists-already arm returns without creating, and a processor is registered only after it started. R5: a processor's configuration pointer is replaced only after every fallible step of the update succeeded. Convergence for every history is not decided; in particular an invalid configuration that is corrected later arrives as a config event for a missing processor and is ignored - that documented defect is not visible to these rules. R6: every event is sent by a plain blocking send, on the goroutine of the update handler, under the store's write lock (event order = state-change order). R7: the controller's handlers contain no go statement (events applied one at a time). R8: processor creation is gated on the configuration, so every event kind that carries a configuration attempts the creation when no processor exists. R2 also: once the add event is out the stored endpoint list is non-nil (the next update is a delta). R3 also: endpoints are compared by address only. R9: the shared configuration holder is written only at construction and nothing caches a configuration message. R10 (shared with C06.R12): every processor applies every endpoint event to its host set. The event channel is found by role (the struct field of type chan Event). R11: an event that may have to create the processor (it has an Endpoints field) has that field set on every path from its construction to its emission. R12: no nil is stored into a slot of the stored endpoint list while an event shares the slice. R13: the store looks a service up and applies the update under one write-lock acquisition. R3 reports lists passed through a function before being applied. R14: proc.New hands the service name on unchanged (the controller files a processor under the name it reports and looks it up by the service name of later events). R15: in the dependency hook the store is told about a change before the subscriptions for it are made. R16: an entry of the service table is created only on the miss side of a lookup of the same name. R17 (shared with C15.R10): a deleted member reaches a tier purge on every path.",
 			TrustedBase: []string{"go/ssa", "VTA call graph"},
 		},
 		run: checkC08,
